@@ -200,14 +200,27 @@ func c06ShowTLS(tc *tls.Config) string {
 		c06U16s(tc.CurvePreferences), b01(tc.PreferServerCipherSuites), strconv.Itoa(int(tc.ClientAuth)), strings.Join(al, ",")}, "\t")
 }
 
+// c06AesniOK: the aesni field must describe this CPU whenever a default cipher list is used
+func c06AesniOK(field string, cfgs []c06Cfg) bool {
+	if (field == "1") == cpuid.CPU.AesNi() {
+		return true
+	}
+	for _, c := range cfgs {
+		if len(c.ciphers) == 0 {
+			return false
+		}
+	}
+	return true
+}
+
 func c06SelectEval(f []string) (string, []string) {
 	if len(f) != 4 {
 		return "bad-case", nil
 	}
-	if (f[0] == "1") != cpuid.CPU.AesNi() {
+	cfgs := c06ParseCfgs(f[1])
+	if !c06AesniOK(f[0], cfgs) {
 		return "bad-case:aesni field does not describe this CPU", nil
 	}
-	cfgs := c06ParseCfgs(f[1])
 	sni := hx.UnHS(f[2])
 	configs := make([]*caskettls.Config, len(cfgs))
 	nEnabled := 0
@@ -475,7 +488,8 @@ func c06DefaultsEval(f []string) (string, []string) {
 }
 
 // c06.build  aesni  cfg     (MakeTLSConfig on ONE config WITHOUT SetDefaultTLSParams: buildStandardTLSConfig alone)
-//   out = err | plain | min TAB max TAB ciphers TAB curves TAB prefer TAB clientAuth TAB alpn
+//
+//	out = err | plain | min TAB max TAB ciphers TAB curves TAB prefer TAB clientAuth TAB alpn
 func c06BuildEval(f []string) (string, []string) {
 	if (f[0] == "1") != cpuid.CPU.AesNi() {
 		return "bad-case:aesni field does not describe this CPU", nil
